@@ -27,7 +27,11 @@ RULE = ("schedulers {sge,pbs,slurm} x modes {array,single} x crop state {no resu
         "mem/gigabytes/mem_per_cpu; num_workers/num_procs/num_threads; extra header kwargs incl. flag-style None/True; "
         "conda_env False/str/True with CONDA_DEFAULT_ENV; launcher/setup/shell_setup/mpi/...) on real sown crops of "
         "1..8 batches of a recording function; every script is bash -n'ed, its embedded program ast.parse'd, then "
-        "executed under bash once per index of its header range; plus xyzpy-grow on partly grown crops. quick = a "
+        "executed under bash once per index of its header range; plus xyzpy-grow on partly grown crops; crop names "
+        "plain / starting with each of x y z . - / only containing them (xyzpy-grow: every leading character each run; "
+        "'-' names after '--'), with 0-3 crops of related names (leading characters removed or added) sown next to the "
+        "named one, which must stay as they were; two array scripts per run whose tasks use 2 "
+        "worker processes on batches of >= 8 settings with run times of 0 / 50 / 100 ms by a hash of the setting. quick = a "
         "boundary suite of 36 scripts (each scheduler x mode x state twice: B=1, one/two missing, one/two explicit ids) "
         "+ random ones; thorough = every B in 1..8 x scheduler x mode x {none, some, explicit length 1..B} twice with "
         "different option spellings. non-trivial = at least 2 batches and (array range of >= 2 tasks, or a partial "
@@ -47,6 +51,29 @@ PARTIAL = {'C16 (shell and Python validity, actual growing)':
            'c16_then_ready': "stated over an abstract grow-task relation (a task adds the result of its batch); that the "
                              "reaped values equal a direct run is C04's theorem plus the reap-vs-direct comparison here"}
 SCHEDS, MODES = ['sge', 'pbs', 'slurm'], ['array', 'single']
+# crop names: plain ones, ones that START with a character of the directory prefix '.xyz-' and ones that only CONTAIN them
+NAMES_LEAD = ['x2', 'xrun', 'yield', 'y-1', 'zeta', 'zz-top', '.hidden', '..dots', '-lead', '-x.y', 'xyz', 'xyz-run', '.xyz-inner', 'yz.run', 'x']
+NAMES_INNER = ['a-b.c', 'exp.x', 'test_xyz', 'crop_zyx', 'run.xyz-', 'my-x']
+NAMES_PLAIN = ['t', 'sweep', 'run1', 'Run', 'data_07']
+NAMES = NAMES_LEAD + NAMES_INNER + NAMES_PLAIN
+
+
+def pick_name(rng):
+    return rng.choice(rng.choice([NAMES_LEAD, NAMES_LEAD, NAMES_INNER, NAMES_PLAIN]))
+
+
+def name_class(name):
+    if name[0] in '.xyz-': return 'starts with ' + name[0]
+    return 'contains one of .xyz-' if any(ch in name for ch in '.xyz-') else 'plain'
+
+
+def siblings_for(rng, name, p=0.6):
+    """names of other crops sown in the same parent directory: the name without its leading characters from '.xyz-',
+    without its first character, with a character or the directory prefix put in front / behind"""
+    cands = [name.lstrip('.xyz-'), name[1:], rng.choice('xyz.-') + name, name + rng.choice('xyz'), '.xyz-' + name, 'xyz-' + name]
+    cands = [x for x in dict.fromkeys(cands) if x and x != name]
+    out = [x for x in cands[:2] if rng.random() < p] + [x for x in cands[2:] if rng.random() < 0.15]
+    return out[:3]
 VARS = {'sge': 'SGE_TASK_ID', 'pbs': 'PBS_ARRAY_INDEX', 'slurm': 'SLURM_ARRAY_TASK_ID'}
 HEADER_RE = {'sge': r'^#\$ -t (\d+)-(\d+)$', 'pbs': r'^#PBS -J (\d+)-(\d+)$', 'slurm': r'^#SBATCH --array=(\d+)-(\d+)$'}
 REPO = os.environ.get('XYZ_REPO', '/repo')
@@ -85,20 +112,20 @@ def make_opts(sched, picks):
     return o, cde
 
 
-def gen_crop(rng, B):
-    """a sweep with at least B settings and a batching that gives exactly B batches"""
+def gen_crop(rng, B, per_batch=1):
+    """a sweep with at least B settings (per_batch * B, capped at 16, when given) and a batching that gives exactly B batches"""
     while True:
         sw = crops.gen_crop_sweep(rng, max_settings=24)
         n = sweeps.n_settings(sw)
-        if n >= B: break
+        if n >= max(B, min(per_batch * B, 16)): break
     opts = [{'nb': B}] + [{'bs': s} for s in range(1, n + 1) if -(-n // s) == B]
     if B == n: opts.append({})
     return sw, rng.choice(opts), n
 
 
-def mk_case(rng, sched, mode, state, B, k=None, picks=None, spelling=None):
+def mk_case(rng, sched, mode, state, B, k=None, picks=None, spelling=None, name=None, per_batch=1, kind=None):
     """state 'none' | 'some' (k = number of missing batches) | 'explicit' (k = number of requested ids)"""
-    sw, batching, n = gen_crop(rng, B)
+    sw, batching, n = gen_crop(rng, B, per_batch)
     ids_all = list(range(1, B + 1))
     pre, ids = [], None
     if state == 'some':
@@ -113,18 +140,28 @@ def mk_case(rng, sched, mode, state, B, k=None, picks=None, spelling=None):
         if rng.random() < 0.4: ids.sort()
     picks = picks if picks is not None else [rng.randrange(len(g)) if rng.random() < 0.6 else 0 for g in GROUPS]
     opts, cde = make_opts(sched, picks)
-    return {'sched': sched if rng.random() < 0.85 else sched.upper(), 'mode': mode, 'state': state, 'B': B, 'n': n,
-            'sweep': sw, 'kind': rng.choice(sweeps.KINDS_BASIC[:6]), 'batching': batching, 'pre': pre, 'ids': ids,
+    if opts.get('num_workers') and n < min(3 * B, 16):
+        # several worker processes per task: batches of several settings, so that the settings of one batch can finish
+        # out of submission order (the recording function staggers its run times)
+        sw, batching, n = gen_crop(rng, B, per_batch=3)
+    name = name if name is not None else (pick_name(rng) if rng.random() < 0.6 else 't')
+    return {'name': name, 'siblings': siblings_for(rng, name, 0.35), 'sib_pre': rng.random() < 0.3,
+            'sched': sched if rng.random() < 0.85 else sched.upper(), 'mode': mode, 'state': state, 'B': B, 'n': n,
+            'sweep': sw, 'kind': kind or rng.choice(sweeps.KINDS_BASIC[:6]), 'batching': batching, 'pre': pre, 'ids': ids,
             'ids_spelling': spelling or rng.choice(['tuple', 'list']), 'opts': opts, 'cde': cde,
             # which method generates the script, and whether the crop was created with a relative parent directory
             'entry': rng.choice(['cluster', 'cluster', 'cluster', 'specific'] + (['qsub'] if sched in ('sge', 'pbs') else [])),
             'relparent': rng.random() < 0.15}
 
 
-def mk_cli(rng, B, k, workers=None):
-    sw, batching, n = gen_crop(rng, B)
+def mk_cli(rng, B, k, workers=None, name=None, sib=0.6):
+    sw, batching, n = gen_crop(rng, B, per_batch=3 if workers else 1)
     miss = sorted(rng.sample(range(1, B + 1), k))
-    return {'cli': True, 'B': B, 'n': n, 'sweep': sw, 'kind': rng.choice(sweeps.KINDS_BASIC[:6]), 'batching': batching,
+    name = name if name is not None else pick_name(rng)
+    return {'name': name, 'siblings': siblings_for(rng, name, sib), 'sib_pre': rng.random() < 0.3,
+            # a name with a leading '-' can only follow '--' on a command line; any name may
+            'cli_form': 'dashdash' if name.startswith('-') or rng.random() < 0.25 else 'first',
+            'cli': True, 'B': B, 'n': n, 'sweep': sw, 'kind': rng.choice(sweeps.KINDS_BASIC[:6]), 'batching': batching,
             'pre': [i for i in range(1, B + 1) if i not in miss], 'num_workers': workers, 'state': 'cli'}
 
 
@@ -155,7 +192,23 @@ def boundary(rng, offset=0):
 def cases(ctx):
     rng = ctx.rng
     out = boundary(rng, offset=ctx.seed * 7)
-    out += [mk_cli(rng, rng.randint(2, 8), 1), mk_cli(rng, 4, 4), mk_cli(rng, rng.randint(3, 8), 2, workers=2)]
+    out += [mk_cli(rng, rng.randint(2, 8), 1), mk_cli(rng, 4, 4), mk_cli(rng, rng.randint(3, 8), 2, workers=2),
+            mk_cli(rng, rng.randint(1, 3), 1, workers=3)]
+    # the command line on crops named with / after the characters of the directory prefix '.xyz-': one name per leading
+    # character and two that only contain them, with and without a crop of the related name next to it
+    lead = {}
+    for nm in rng.sample(NAMES_LEAD, len(NAMES_LEAD)): lead.setdefault(nm[0], nm)
+    for j, nm in enumerate(list(lead.values()) + rng.sample(NAMES_INNER, 2)):
+        B = rng.randint(2, 5)
+        out.append(mk_cli(rng, B, rng.randint(1, B), name=nm, sib=(0.95 if (j + ctx.seed) % 2 == 0 else 0.0)))
+    # several worker processes inside one task, batches of >= 8 settings whose run times differ, results that tell the
+    # settings apart: the results of a batch must be stored in the order of its settings, not in completion order
+    # (array tasks hand num_workers to grow(), which runs the settings of ONE batch on the workers; the single job and the
+    # command line spread whole batches over them)
+    for sched in rng.sample(SCHEDS, 2):
+        pk = [0] * len(GROUPS); pk[2] = rng.choice([3, 5])
+        out.append(mk_case(rng, sched, 'array', rng.choice(['none', 'explicit']), rng.randint(1, 2), picks=pk, per_batch=12,
+                           kind=rng.choice([{'scalar': 'int'}, {'scalar': 'num'}, {'scalar': 'str'}])))
     # nothing left to grow: the array range is empty (1-0), the single job and the CLI are no-ops
     out += [mk_case(rng, SCHEDS[ctx.seed % 3], 'array', 'some', 3, k=0), mk_case(rng, SCHEDS[(ctx.seed + 1) % 3], 'single', 'some', 2, k=0)]
     out += [mk_invalid(rng, 'slurm', {'gigabytes': 2, 'mem': 4}), mk_invalid(rng, 'pbs', {'time': 2, 'hours': 1}),
@@ -187,6 +240,12 @@ def cases(ctx):
             for k in c['opts']: ctx.count('option', k)
             if c['cde']: ctx.count('option', 'CONDA_DEFAULT_ENV')
         ctx.count('batches', c['B'])
+        how = 'invalid-options' if c.get('invalid') else 'cli' if c.get('cli') else c.get('entry', 'cluster')
+        ctx.count('crop_name', f"{how}: {name_class(c.get('name', 't'))}")
+        ctx.count('sibling_crops', f"{'cli' if c.get('cli') else 'script'}: {len(c.get('siblings') or [])}")
+        if c.get('cli'): ctx.count('cli_form', c.get('cli_form', 'first'))
+        nw = c.get('num_workers') if c.get('cli') else c['opts'].get('num_workers')
+        if nw: ctx.count('num_workers', f"{'cli' if c.get('cli') else 'script'}: {nw} workers, about {max(1, round(c['n'] / c['B']))} settings per batch")
     return out
 
 
@@ -213,6 +272,8 @@ def nontrivial(c):
 
 
 def shrink_candidates(c):
+    if c.get('siblings'):
+        yield dict(c, siblings=c['siblings'][:-1])
     if c.get('cli') or c.get('invalid'): return
     if c['opts'] != {'num_procs': 1} or c['cde']:
         yield dict(c, opts={'num_procs': 1}, cde=None)
@@ -258,7 +319,7 @@ def child_env(extra):
     env = {'PATH': _ENV['bin'] + ':/usr/local/bin:/usr/bin:/bin', 'HOME': _ENV['home'], 'LANG': 'C.UTF-8',
            'PYTHONWARNINGS': 'ignore', 'MPLBACKEND': 'Agg', 'TQDM_DISABLE': '1',
            # staggered run times: with num_workers the cases of a batch finish out of submission order
-           fns.STAGGER_ENV: '0.03'}
+           fns.STAGGER_ENV: '0.05', fns.STAGGER_SPREAD_ENV: '1'}
     env.update(extra)
     return env
 
@@ -348,16 +409,28 @@ def _prepare(c, ctx, p, d, parent_arg):
     f = p.f
     with quiet():
         b = c['batching']
-        crop = xyz.Crop(fn=f, name='t', parent_dir=parent_arg, batchsize=b.get('bs'), num_batches=b.get('nb'))
-        if sw['rows'] is not None and not sw['combo_args']:
-            crop.sow_cases(sw['case_args'], sweeps.py_cases(sw, 'tuple'), verbosity=0)
-        else:
-            crop.sow_combos(sweeps.py_combos(sw, 'dict'), cases=sweeps.py_cases(sw, 'dict'), verbosity=0)
+        def sown(name):
+            crop = xyz.Crop(fn=f, name=name, parent_dir=parent_arg, batchsize=b.get('bs'), num_batches=b.get('nb'))
+            if sw['rows'] is not None and not sw['combo_args']:
+                crop.sow_cases(sw['case_args'], sweeps.py_cases(sw, 'tuple'), verbosity=0)
+            else:
+                crop.sow_combos(sweeps.py_combos(sw, 'dict'), cases=sweeps.py_cases(sw, 'dict'), verbosity=0)
+            return crop
+        p.name = c.get('name', 't')
+        crop = sown(p.name)
         if c['pre']: crop.grow(list(c['pre']), verbosity=0)
+        # other crops of the same function in the same parent directory, under related names: they are not the one named
+        p.sibs = {}
+        for sname in c.get('siblings') or []:
+            sib = sown(sname)
+            if c.get('sib_pre'): sib.grow([1], verbosity=0)
+            p.sibs[sname] = os.path.abspath(sib.location)
     p.crop, p.loc = crop, os.path.abspath(crop.location)
     p.idx, p.sizes = batch_index(crop.location)
     obs = {'B': crop.num_batches, 'before': crops.ls(crop.location)['r'], 'parent_dir': os.path.realpath(d),
-           'home': _ENV['home'], 'tasks': []}
+           'home': _ENV['home'], 'tasks': [], 'siblings_before': {sn: crops.ls(l)['r'] for sn, l in p.sibs.items()}}
+    if len({p.loc} | set(p.sibs.values())) != 1 + len(p.sibs):
+        obs['harness_exc'] = 'two crops of the case share a directory'
     p.obs = obs
     p.jobs = []
     if obs['B'] != c['B']:
@@ -427,9 +500,9 @@ def run_job(p, job):
     log = os.path.join(p.d, f'calls-{tag}.log')
     extra = {fns.LOG_ENV: log, 'XYZV_CONDALOG': os.path.join(p.d, f'conda-{tag}.log')}
     if kind == 'cli':
-        cmd = ['python', '-m', 'xyzpy.gen.xyzpy_grow_cli', 't', '--parent-dir', p.d]
-        if p.c.get('num_workers'): cmd += ['--num-workers', str(p.c['num_workers'])]
-        cmd = [os.path.join(_ENV['bin'], 'python')] + cmd[1:]
+        cmd = [os.path.join(_ENV['bin'], 'python'), '-m', 'xyzpy.gen.xyzpy_grow_cli']
+        optv = ['--parent-dir', p.d] + (['--num-workers', str(p.c['num_workers'])] if p.c.get('num_workers') else [])
+        cmd += (optv + ['--', p.name]) if p.c.get('cli_form') == 'dashdash' else ([p.name] + optv)
     else:
         if t is not None: extra[VARS[p.c['sched'].lower()]] = str(t)
         cmd = ['bash', p.script]
@@ -453,8 +526,9 @@ def finish(p, ctx):
     try:
         if 'harness_exc' in obs or 'err' in obs: return obs
         obs['after'] = crops.ls(p.loc)['r']
+        obs['siblings_after'] = {sn: crops.ls(l)['r'] for sn, l in p.sibs.items()}
         with quiet():
-            crop = xyz.Crop(name='t', parent_dir=p.d)
+            crop = xyz.Crop(name=p.name, parent_dir=p.d)
             # a request for only some of the missing ids leaves the crop incomplete by design: grow the rest here so that
             # the final reap is always checked
             rest = [i for i in range(1, obs['B'] + 1) if i not in obs['after']]
@@ -525,7 +599,7 @@ def model_request(c, obs):
         opts[k] = (obs['parent_dir'] + v[2:]) if isinstance(v, str) and v.startswith('@D') else v
     return {'op': 'script', 'scheduler': c['sched'], 'mode': c['mode'], 'batch_ids': c['ids'], 'num_batches': c['B'],
             'done': obs['before'], 'opts': opts,
-            'env': {'home': obs['home'], 'conda_default_env': c['cde'], 'name': 't', 'parent_dir': obs['parent_dir']}}
+            'env': {'home': obs['home'], 'conda_default_env': c['cde'], 'name': c.get('name', 't'), 'parent_dir': obs['parent_dir']}}
 
 
 def _first_diff(a, b):
@@ -580,7 +654,7 @@ def oracle(c, obs):
     if c.get('cli'):
         intended = missing
         t = tasks[0]
-        if t['rc'] != 0: return f'xyzpy-grow exited with {t["rc"]}: {t["err"]}'
+        if t['rc'] != 0: return f'xyzpy-grow on crop {c.get("name", "t")!r} exited with {t["rc"]}: {t["err"]}'
     else:
         intended = list(c['ids']) if c['ids'] is not None else missing
         if not obs['bash_n']: return f'bash -n rejects the script: {obs["bash_err"]}'
@@ -615,9 +689,12 @@ def oracle(c, obs):
         if sorted(t['grew']) != sorted(intended): return f'job grew batches {t["grew"]}, intended {sorted(intended)}'
         bad = {b: v for b, v in t['calls'].items() if v != 'once'}
         if bad: return f'batches not evaluated exactly once: {bad}'
+    if obs.get('siblings_after') != obs.get('siblings_before'):
+        return (f'a crop other than the named one ({c.get("name", "t")!r}) was grown: results of the crops next to it were '
+                f'{obs.get("siblings_before")}, now {obs.get("siblings_after")}')
     want_after = sorted(set(before) | set(intended))
     if obs['after'] != want_after:
-        return f'result files after all tasks {obs["after"]}, expected previous ∪ intended = {want_after}'
+        return f'result files of crop {c.get("name", "t")!r} after all tasks {obs["after"]}, expected previous ∪ intended = {want_after}'
     if not obs.get('ready'): return f'crop not ready to reap after all batches were grown (results {obs["after"]}, completed by harness {obs["completed_by_harness"]})'
     if obs['reap'] != obs['direct']: return 'reaped results differ from the direct run'
     # conda activation requested => conda was invoked with that environment before python ran
